@@ -1,7 +1,261 @@
 import ComposeVerif.Ops.Common
-/-! line-protocol ops for C13 (filled in by the property's owner) -/
-namespace CV.Ops.C13
+import ComposeVerif.Model.Trav
+import ComposeVerif.Model.DepGraph
+/-!
+line-protocol ops for C13
 
-def handlers : List (String × Handler) := []
+`trav.replay`: replay traces of the *real* `graph.walk` (recorded by the controlled scheduler of
+`harness/c13sched.go` under the `verif` yield hooks) through `Trav.step?` and compare, at every
+quiescent point, the set of goroutines / their pending steps / whether a blocking operation is
+enabled with the model's state.
+
+Mapping real event (a goroutine completed the step it was released into) → model labels:
+
+| real step completed (arrived at)                 | labels                                                   |
+|--------------------------------------------------|----------------------------------------------------------|
+| M `init` (→ ready v / M.wait)                    | `schedNext M v` / `schedEnd M`                           |
+| w `ready` v (→ enter v)                          | `ready w`                                                |
+| w `ready` v (→ ready v' / M.wait / C.select)     | `ready w`, then `schedNext w v'` / `schedEnd w`           |
+| w `enter` v (→ spawn v)                          | `enter w`                                                |
+| w `enter` v (→ …)                                | `enter w`, then `schedNext`/`schedEnd`                    |
+| w `spawn` v (→ …)                                | `spawn w`, then `schedNext`/`schedEnd`                    |
+| W `W.begin` v (→ visitor entry / W.done)         | `wBegin v`  (visitor entered iff not skipped)            |
+| W `visit` v (visitor released with ok/err)       | `wReturn v err`                                          |
+| W `W.done` / `W.send` / `W.exit`                 | `wDone v` / `wSend v` / `wExit v`                        |
+| C `C.select` (→ C.recv k)                        | none; checked: head of `ch` = k (the model receives later) |
+| C `C.select` (→ C.ctxDone)                       | none; checked: `cancelled`                               |
+| C `C.recv` k (→ ready / C.select)                | `cRecv`, then `schedNext C v'` / `schedEnd C`             |
+| C `C.recv` k (→ C.exit)                          | none; checked: `expect = 1` (deferred to `C.exit`)        |
+| C `C.exit` (goroutine gone)                      | `cRecv` (the last one: `cAlive := false`)                |
+| C `C.ctxDone` (goroutine gone)                   | `cCtxDone`                                               |
+| M `M.wait` (walk returned r)                     | none; checked: `terminal`, r = `firstErr`                |
+-/
+open Lean
+namespace CV.Ops.C13
+open CV.Trav
+
+def ns (n : Nat) : String := Nat.repr n
+
+def natPairs (j : Json) (k : String) : List (Nat × Nat) :=
+  match j.getObjVal? k with
+  | .ok (.arr a) => a.toList.filterMap fun e =>
+      match e with
+      | .arr p => match p.toList with
+        | [x, y] => match x.getNat?, y.getNat? with
+          | .ok a, .ok b => some (a, b)
+          | _, _ => none
+        | _ => none
+      | _ => none
+  | _ => []
+
+def natList (j : Json) (k : String) : List Nat :=
+  match j.getObjVal? k with
+  | .ok (.arr a) => a.toList.filterMap fun e => e.getNat?.toOption
+  | _ => []
+
+/-- edges are `(a, b)` = "a depends on b" -/
+def mkGraph (n : Nat) (edges : List (Nat × Nat)) (reverse : Bool) (roots : List Nat) : Graph :=
+  let deps : V → List V := fun v => (edges.filter (·.1 == v)).map (·.2)
+  let dependents : V → List V := fun v => (edges.filter (·.2 == v)).map (·.1)
+  { verts := List.range n
+    pre := if reverse then dependents else deps
+    post := if reverse then deps else dependents
+    skip := skipOf deps n roots }
+
+def subStr (w : String) (limit : Option Nat) (s : St) : Option Sched → (noneStr : String) → String
+  | none, ns => w ++ ":" ++ ns
+  | some ⟨_, .next⟩, _ => w ++ ":next"
+  | some ⟨_, .ready v⟩, _ => w ++ ":ready:" ++ ns v
+  | some ⟨_, .enter v⟩, _ => w ++ ":enter:" ++ ns v
+  | some ⟨_, .spawn v⟩, _ => w ++ ":spawn:" ++ ns v ++ (if slotFree limit s then "+" else "-")
+
+def pcStr : WPc → String
+  | .start => "start" | .running => "running" | .returned _ => "returned" | .marked _ => "marked" | .sent _ => "sent"
+
+def insertSorted (p : Nat × String) : List (Nat × String) → List (Nat × String)
+  | [] => [p]
+  | q :: r => if p.1 ≤ q.1 then p :: q :: r else q :: insertSorted p r
+
+/-- canonical rendering of what every goroutine of the model is about to do -/
+def view (limit : Option Nat) (s : St) : String :=
+  let c := if s.cAlive then
+      [subStr "C" limit s s.cSched ("select" ++ (if !s.ch.isEmpty || s.cancelled then "+" else "-"))] else []
+  let m := [subStr "M" limit s s.m ("wait" ++ (if decide (terminal s) then "+" else "-"))]
+  let ws := (s.workers.foldl (fun acc p => insertSorted (p.1, pcStr p.2) acc) []).map
+      fun p => "W" ++ ns p.1 ++ ":" ++ p.2
+  " ".intercalate (c ++ m ++ ws)
+
+/-- `?` in the real view is a wildcard for one character (enabledness not yet known) -/
+def viewMatch : List Char → List Char → Bool
+  | [], [] => true
+  | a :: r, b :: m => (a == '?' || a == b) && viewMatch r m
+  | _, _ => false
+
+structure Evt where
+  g : String
+  step : String
+  key : Nat
+  next : String
+  nextKey : Nat
+  res : String
+  view : String
+
+def parseEvt (e : String) : Evt :=
+  let f := e.splitOn "|"
+  let get := fun i => f.getD i ""
+  { g := get 0, step := get 1, key := (get 2).toNat?.getD 0, next := get 3, nextKey := (get 4).toNat?.getD 0,
+    res := get 5, view := get 6 }
+
+def whoOf (g : String) : Option Who := if g == "M" then some .M else if g == "C" then some .C else none
+
+def run (g : Graph) (lim : Option Nat) (s : St) : List Label → Except String St
+  | [] => .ok s
+  | l :: ls => match step? g lim s l with
+    | some s' => run g lim s' ls
+    | none => .error ("model refuses " ++ reprStr l)
+
+def advance (w : Who) (e : Evt) : Except String (List Label) :=
+  if e.next == "ready" then .ok [.schedNext w e.nextKey]
+  else if (w == .M && e.next == "M.wait") || (w == .C && e.next == "C.select") then .ok [.schedEnd w]
+  else .error ("unexpected next park " ++ e.next)
+
+def subOf (s : St) (w : Who) : Option SubPc := (getSched s w).map (·.sub)
+
+def applyEvt (g : Graph) (lim : Option Nat) (s : St) (e : Evt) : Except String St := do
+  match e.g, e.step with
+  | "M", "init" =>
+    let ls ← advance .M e
+    run g lim s ls
+  | "M", "M.wait" =>
+    if ¬ decide (terminal s) then throw "walk returned but the model is not terminal"
+    let r := match s.firstErr with | none => "nil" | some v => "E" ++ ns v
+    if r != e.res then throw ("walk returned " ++ e.res ++ ", model says " ++ r)
+    pure s
+  | "W", "W.begin" =>
+    let s' ← run g lim s [.wBegin e.key]
+    let entered := wpc s'.workers e.key == some .running
+    if entered != (e.next == "visit") then throw "skip decision differs"
+    pure s'
+  | "W", "visit" => run g lim s [.wReturn e.key (e.res == "err")]
+  | "W", "W.done" => run g lim s [.wDone e.key]
+  | "W", "W.send" => run g lim s [.wSend e.key]
+  | "W", "W.exit" => run g lim s [.wExit e.key]
+  | "C", "C.select" =>
+    if !(s.cAlive && s.cSched.isNone) then throw "coordinator not at select in the model"
+    if e.next == "C.recv" then
+      if s.ch.head? != some e.nextKey then throw "coordinator received a vertex that is not the head of the model channel"
+      pure s
+    else if e.next == "C.ctxDone" then
+      if !s.cancelled then throw "coordinator saw ctx.Done but the model is not cancelled"
+      pure s
+    else throw ("unexpected next park " ++ e.next)
+  | "C", "C.recv" =>
+    if s.ch.head? != some e.key then throw "received vertex is not the head of the model channel"
+    if e.next == "C.exit" then
+      if s.expect != 1 then throw "coordinator exits but model expect ≠ 1"
+      pure s
+    else
+      let s' ← run g lim s [.cRecv]
+      if !s'.cAlive then throw "model coordinator exits, real one continues"
+      let ls ← advance .C e
+      run g lim s' ls
+  | "C", "C.exit" =>
+    let s' ← run g lim s [.cRecv]
+    if s'.cAlive then throw "real coordinator exited, model one continues"
+    pure s'
+  | "C", "C.ctxDone" => run g lim s [.cCtxDone]
+  | gs, st =>
+    match whoOf gs with
+    | none => throw ("unknown goroutine " ++ gs)
+    | some w =>
+      if st == "ready" then
+        if subOf s w != some (.ready e.key) then throw "model is not at ready of this vertex"
+        let s' ← run g lim s [.ready w]
+        if e.next == "enter" then pure s' else
+          let ls ← advance w e
+          run g lim s' ls
+      else if st == "enter" then
+        if subOf s w != some (.enter e.key) then throw "model is not at enter of this vertex"
+        let s' ← run g lim s [.enter w]
+        if e.next == "spawn" then pure s' else
+          let ls ← advance w e
+          run g lim s' ls
+      else if st == "spawn" then
+        if subOf s w != some (.spawn e.key) then throw "model is not at spawn of this vertex"
+        let s' ← run g lim s [.spawn w]
+        let ls ← advance w e
+        run g lim s' ls
+      else throw ("unknown step " ++ st)
+
+def replayTrace (g : Graph) (lim : Option Nat) (evs : List String) : Json :=
+  let rec go (s : St) (i : Nat) : List String → Json
+    | [] => Json.mkObj [("ok", true), ("n", i), ("terminal", decide (terminal s))]
+    | es :: rest =>
+      let e := parseEvt es
+      match applyEvt g lim s e with
+      | .error why => Json.mkObj [("ok", false), ("at", i), ("ev", es), ("why", why), ("model", view lim s)]
+      | .ok s' =>
+        if e.view != "" && !viewMatch e.view.toList (view lim s').toList then
+          Json.mkObj [("ok", false), ("at", i), ("ev", es), ("why", "view"), ("model", view lim s')]
+        else go s' (i + 1) rest
+  -- `walk` returns nil before creating any goroutine when the graph has no vertex (traversal.go:86-88)
+  if g.verts.isEmpty then
+    if evs == ["M|M.wait||||nil|"] then Json.mkObj [("ok", true), ("n", 1), ("terminal", true)]
+    else Json.mkObj [("ok", false), ("at", 0), ("ev", evs.headD ""), ("why", "empty graph: walk must return nil at once"), ("model", "")]
+  else
+  go (init g) 0 evs
+
+def graphOfArgs (args : Json) : Graph × Option Nat :=
+  let n := getNat args "n"
+  let lim := getNat args "limit"
+  (mkGraph n (natPairs args "edges") (getBool args "reverse") (natList args "roots"),
+   if lim == 0 then none else some lim)
+
+def replay : Handler := fun args =>
+  let (g, lim) := graphOfArgs args
+  let traces : List (List String) := match args.getObjVal? "traces" with
+    | .ok (.arr a) => a.toList.map fun t => match t with
+      | .arr es => es.toList.filterMap fun e => match e with | .str s => some s | _ => none
+      | _ => []
+    | _ => []
+  let res := traces.map (replayTrace g lim)
+  let bad := res.filter fun r => getBool r "ok" == false
+  Json.mkObj [("traces", traces.length), ("bad", Json.arr (bad.take 3).toArray), ("nbad", bad.length)]
+
+/-- which vertices `t.skip` says are not visited (correspondence of `skipOf` alone) -/
+def skips : Handler := fun args =>
+  let (g, _) := graphOfArgs args
+  Json.arr ((g.verts.filter g.skip).map (fun v => Json.num (JsonNumber.fromNat v))).toArray
+
+/-! `trav.newgraph`: every outcome of `newGraph` + `checkCycle` reachable under some iteration order of the Go maps.
+args: `{"services":[{"name":0,"deps":[[1,true],[9,false]]},…],"disabled":[7,8]}` -/
+
+def insertNat (x : Nat) : List Nat → List Nat
+  | [] => [x]
+  | y :: r => if x ≤ y then x :: y :: r else y :: insertNat x r
+
+def sortNat (l : List Nat) : List Nat := l.foldr insertNat []
+
+def svcOfJson (j : Json) : CV.DepGraph.Svc :=
+  let deps : List CV.DepGraph.Dep := match j.getObjVal? "deps" with
+    | .ok (.arr a) => a.toList.filterMap fun d => match d with
+      | .arr p => match p.toList with
+        | [n, r] => match n.getNat?, r.getBool? with
+          | .ok n, .ok r => some ⟨n, r⟩
+          | _, _ => none
+        | _ => none
+      | _ => none
+    | _ => []
+  ⟨getNat j "name", deps⟩
+
+def newgraph : Handler := fun args =>
+  let svcs : List CV.DepGraph.Svc := match args.getObjVal? "services" with
+    | .ok (.arr a) => a.toList.map svcOfJson
+    | _ => []
+  let p : CV.DepGraph.Proj := ⟨svcs, natList args "disabled"⟩
+  let outs := (CV.DepGraph.outcomes p).map fun o => o.cls ++ ":" ++ " ".intercalate ((sortNat o.changed).map ns)
+  Json.arr ((outs.eraseDups).map Json.str).toArray
+
+def handlers : List (String × Handler) := [("trav.replay", replay), ("trav.skips", skips), ("trav.newgraph", newgraph)]
 
 end CV.Ops.C13
